@@ -147,7 +147,7 @@ def make_jobs(ctx, focus: str):
     r = ctx.rng
     names = search.all_names()
     jobs = []
-    reps = 1 if ctx.quick else 6
+    reps = (1 if ctx.quick else 6) * getattr(ctx, 'boost', 1)
     for nm in names:
         for _ in range(reps):
             lo, hi = r.choice(BOUNDS)
@@ -172,6 +172,10 @@ def make_jobs(ctx, focus: str):
             jobs.append({"opt": nm, "cfg": {"max_cycles": 2, "fitness_error": None}, "record": True, "sequence": [{"task": mo([0.5, 0.5])}], "task": mo([0.9, 0.1])})
             jobs.append({"opt": nm, "cfg": {"max_cycles": 2, "fitness_error": None}, "record": True,
                          "sequence": [{"task": search.cont_task(obj="sphere", seed=sd, dim=3)}], "task": search.cont_task(obj="shifted", minmax=r.choice(["min", "max"]), seed=sd, dim=3)})
+        # an objective that edits its argument in place must not be able to reach the stored position
+        if r.random() < (0.25 if ctx.quick else 1.0):
+            jobs.append({"opt": nm, "cfg": {"max_cycles": 2, "fitness_error": None}, "record": False,
+                         "task": {"vars": [("contmulti", ([20.0, -10.0, 0.0], [30.0, -5.0, 1.0]))], "obj": "mutating:sphere", "minmax": r.choice(["min", "max"]), "seed": r.randint(0, 10**6)}})
         # two variables sharing one name (the library's default name is "var"): still one coordinate per declared variable
         if r.random() < (0.25 if ctx.quick else 1.0):
             jobs.append({"opt": nm, "cfg": {"max_cycles": 2, "fitness_error": None}, "record": True,
@@ -212,7 +216,7 @@ def decide(ctx, obs_list, what: set[str]):
                             ctx.violation(f"space-{pr[0]}:{j['opt']}", f"{j['opt']}: reported position {pos!r}: {pr[1]}", {"kind": "job", "job": j, "generation": g})
                     if "cost" in what:
                         try:
-                            true = search.objective_value(t["obj"], pos)
+                            true = search.objective_value(t["obj"][9:] if t["obj"].startswith("mutating:") else t["obj"], pos)
                         except Exception:
                             continue
                         true_cost = float(np.dot(true, weights)) if isinstance(true, list) and weights is not None else true
